@@ -12,6 +12,7 @@ import NrDaemon.Driver.Config
 import NrDaemon.Driver.Redact
 import NrDaemon.Driver.SpanQueue
 import NrDaemon.Driver.Trigger
+import NrDaemon.Driver.Race
 /-!
   Op-line driver (core Lean only; built as a `lean_exe`).
 
@@ -46,6 +47,8 @@ def dispatch (st : DState) (line : String) (impl : Option String) : DState × St
   | some "flags" => (st, flagsStep t impl)
   | some "argv" => (st, argvStep t impl)
   | some "redact" => (st, redactStep t impl)
+  | some "race" => (st, raceStep t impl)
+  | some "tostress" => (st, { model := "done" })
   | some "trig" => let (c, o) := trigStep st.trig t impl; ({ st with trig := c }, o)
   | some "spanq" => let (c, o) := spanqStep st.sq t impl; ({ st with sq := c }, o)
   | some "reset" => ({}, { model := "ok" })
